@@ -127,6 +127,16 @@ def gen_grp(rng):
             t.append([])
             adds.append((path, kind, None))
             continue
+        if r > 0.85 and (path or t):
+            # move / resize an existing shape (group or leaf) through the public setters; no recalculation happens
+            if t and rng.random() < 0.5:
+                tgt = path + [rng.randrange(len(t))]
+            elif path:
+                tgt = path
+            else:
+                tgt = [rng.randrange(len(t))]
+            adds.append((tgt, "S", (rng.randint(-2000, 5000), rng.randint(-2000, 5000), rng.randint(0, 3000), rng.randint(0, 3000))))
+            continue
         kind = rng.choice(["tb", "sp", "cxn", "pic", "ff", "tb", "sp"] + (["chart"] if rng.random() < 0.05 else []))
         x, y = rng.randint(-2000, 5000), rng.randint(-2000, 5000)
         cx, cy = rng.randint(0, 3000), rng.randint(0, 3000)
@@ -152,9 +162,24 @@ def impl_grp(slide, adds, png):
         for k in node.kids:
             if k.is_group:
                 s = k.shape
-                res.append((s.left, s.top, s.width, s.height, k))
+                xf = s._element.grpSpPr.xfrm
+                res.append("%d,%d,%d,%d~%d,%d,%d,%d" % (s.left, s.top, s.width, s.height, xf.chOff.x, xf.chOff.y, xf.chExt.cx, xf.chExt.cy))
                 res += walk(k)
         return res
+
+    def local_bad(k):
+        s = k.shape
+        xf = s._element.grpSpPr.xfrm
+        ms = [m.shape for m in k.kids]
+        if ms:
+            x0 = min(m.left for m in ms); y0 = min(m.top for m in ms)
+            x1 = max(m.left + m.width for m in ms); y1 = max(m.top + m.height for m in ms)
+            want = (x0, y0, x1 - x0, y1 - y0)
+        else:
+            want = (0, 0, 0, 0)
+        got = (s.left, s.top, s.width, s.height)
+        ch = (xf.chOff.x, xf.chOff.y, xf.chExt.cx, xf.chExt.cy)
+        return (got, ch, want) if (got != want or ch != want) else None
 
     def check_inv(node):
         """L2: every group (below the slide) equals the bounding box of its members, recursively"""
@@ -177,10 +202,19 @@ def impl_grp(slide, adds, png):
                 bad += check_inv(k)
         return bad
 
+    moved = False
     for step, (path, kind, box) in enumerate(adds):
         node = root
+        chain = []
         for i in path:
             node = node.kids[i]
+            chain.append(node)
+        if kind == "S":
+            s_ = node.shape
+            s_.left, s_.top, s_.width, s_.height = box
+            moved = True
+            outs.append("/".join(walk(root)))
+            continue
         sh = shapes_of(node)
         if kind == "G":
             new = Node(sh.add_group_shape(), True)
@@ -203,9 +237,11 @@ def impl_grp(slide, adds, png):
                 s = fb.convert_to_shape(x, y)
             new = Node(s, False)
         node.kids.append(new)
-        outs.append("/".join("%d,%d,%d,%d" % b[:4] for b in walk(root)))
+        outs.append("/".join(walk(root)))
         if first_bad is None:
-            bad = check_inv(root)
+            # every group on the path from the addition up to the slide must now be exact, whatever happened before;
+            # if no shape was ever moved by hand, every group of the whole tree must be
+            bad = [b for b in (local_bad(k) for k in chain) if b] or ([] if moved else check_inv(root))
             if bad:
                 first_bad = (step, kind, bad[0])
     # clean up
@@ -219,7 +255,7 @@ def enc_adds(adds):
     toks = []
     for path, kind, box in adds:
         p = "/".join(map(str, path)) if path else "-"
-        toks.append(f"{p}|G" if kind == "G" else f"{p}|L|{enc_ints(box)}")
+        toks.append(f"{p}|G" if kind == "G" else (f"{p}|S|{enc_ints(box)}" if kind == "S" else f"{p}|L|{enc_ints(box)}"))
     return ";".join(toks) if toks else "!"
 
 
@@ -252,6 +288,10 @@ def gen_ff(rng, dyadic=True):
         else:
             ops.append(("L", coord(), coord()))
     ox, oy = rng.randint(-1000, 100000), rng.randint(-1000, 100000)
+    if ops and rng.random() < 0.35:
+        i = rng.randrange(len(ops))
+        if ops[i][0] != "C":
+            ops[i] = ops[i] + ("convert-here",)
     return sx, sy, xs, ys, ox, oy, ops
 
 
@@ -279,6 +319,9 @@ def impl_ff(slide, case):
             fb.move_to(float(op[1]), float(op[2]))
         else:
             fb.add_line_segments([(float(op[1]), float(op[2]))], close=False)
+        if len(op) > 3 and op[3] == "convert-here":
+            early = fb.convert_to_shape(Emu(ox), Emu(oy))  # a builder may be converted more than once
+            early._element.getparent().remove(early._element)
     s = fb.convert_to_shape(Emu(ox), Emu(oy))
     path = s._element.spPr.custGeom.pathLst[0]
     pts = [(int(pt.get("x")), int(pt.get("y"))) for pt in path.iter(qn("a:pt"))]
@@ -338,7 +381,7 @@ def correspond(ctx):
         line = "c17.grp " + enc_adds(adds)
         lines.append(line); impl.append(out); cases.append(("grp", adds))
         ctx.case(key=line); ctx.count("grp"); ctx.count("grp-adds", len(adds))
-        ctx.count("grp-maxdepth-%d" % max(len(p) for p, _, _ in adds))
+        ctx.count("grp-maxdepth-%d" % max(len(p) - (k == "S") for p, k, _ in adds))
         for _, k, _ in adds:
             ctx.count("grp-add-" + k)
         if first_bad:
